@@ -9,3 +9,59 @@ pub fn format_stub(_args: core::fmt::Arguments<'_>) -> String {
 pub fn random_state_stub() -> std::hash::RandomState {
 	unsafe { core::mem::transmute([0u64; 2]) }
 }
+
+use peppi::frame::mutable::{Frame as MFrame, PortData as MPortData};
+use peppi::frame::PortOccupancy;
+use peppi::game::{self, Port};
+use peppi::io::slippi::{Slippi, Version};
+
+/// A `game::Start` carrying only what `parse_event` consults (the version).
+pub fn mk_start(version: Version) -> game::Start {
+	game::Start {
+		slippi: Slippi { version },
+		bitfield: [0; 4],
+		is_raining_bombs: false,
+		is_teams: false,
+		item_spawn_frequency: 0,
+		self_destruct_score: 0,
+		stage: 0,
+		timer: 0,
+		item_spawn_bitfield: [0; 5],
+		damage_ratio: 1.0,
+		players: Vec::new(),
+		random_seed: 0,
+		bytes: game::Bytes(Vec::new()),
+		is_pal: None,
+		is_frozen_ps: None,
+		scene: None,
+		language: None,
+		r#match: None,
+	}
+}
+
+/// `Vec<PortData>` whose buffer is the caller's *typed* array `store` (CBMC keeps typed objects
+/// field-sensitive, whereas a heap buffer is one flat byte array).  Both the Vec (inside the
+/// parser state) and `store` must be `mem::forget`-ed at the end and `store` must not be touched
+/// in between; peppi never pushes to `ports` after `parse_start`, so the Vec never reallocates.
+pub unsafe fn typed_ports<const N: usize>(store: &mut [MPortData; N]) -> Vec<MPortData> {
+	Vec::from_raw_parts(store.as_mut_ptr(), N, N)
+}
+
+/// (major, minor) as one integer: the lexicographic order the spec's "added in" column means.
+pub fn vkey(v: Version) -> u32 {
+	(v.0 as u32) << 8 | v.1 as u32
+}
+
+/// Stand-in for `core::str::from_utf8` in harnesses whose text fields are short ASCII constants:
+/// the real validator's word-at-a-time fast path branches on pointer alignment, which CBMC
+/// treats as unknown, and then unwinds every validation loop to the bound.  UTF-8 validation
+/// is not what those harnesses are about (they check offsets and values).
+pub fn utf8_ascii_stub(v: &[u8]) -> Result<&str, core::str::Utf8Error> {
+	assert!(v.len() <= 4);
+	let mut i = 0;
+	while i < v.len() {
+		assert!(v[i] < 0x80);
+		i += 1;
+	}
+	Ok(unsafe { core::str::from_utf8_unchecked(v) })
+}
